@@ -85,7 +85,10 @@ func nearMiss(r *rand.Rand, v any, depth int) any {
 		c := gen.Clone(x).([]any)
 		switch {
 		case len(c) == 0:
-			return gen.Pick(r, []any{nil, map[string]any{}, []any{nil}, ""})
+			return gen.Pick(r, []any{nil, map[string]any{}, []any{nil}, "", []any{[]any{}}, []any{[]any{}, []any{}}})
+		case allEmpty(c) && r.IntN(2) == 0:
+			// change the nesting depth of empty lists: [[]] vs [[[]]] vs [[],[]]
+			return gen.Pick(r, []any{[]any{[]any{[]any{}}}, []any{[]any{}, []any{}}, []any{[]any{}}, []any{}})
 		case r.IntN(4) == 0:
 			return c[:len(c)-1]
 		case r.IntN(4) == 0:
@@ -202,3 +205,12 @@ func topKind(v any) string {
 
 // describe renders a Go value with its types (for witnesses).
 func describe(v any) string { return gen.Describe(v) }
+
+func allEmpty(l []any) bool {
+	for _, e := range l {
+		if x, ok := e.([]any); !ok || len(x) != 0 {
+			return false
+		}
+	}
+	return len(l) > 0
+}
